@@ -182,6 +182,7 @@ func c09Alone(w cfggen.World, sc c09Script) ([]c09Reply, error) {
 
 func runC09(t failer, c c09Case) (overlap bool) {
 	ev.Eval()
+	journal("C09", c)
 	c.World.Cfg.Restore()
 	fail := func(sig, format string, args ...interface{}) {
 		violation(t, "C09", "isolation", "C09:"+sig, c, format, args...)
